@@ -387,7 +387,20 @@ def sum_zero(ctx, name, d, kind='ensures', depth=0):
     for (c, lo, hi, body) in d.terms:
         if ctx.known(S.le(hi, lo)):
             continue
+        # a range that the path condition forces to a small concrete size is written out
+        lo_v = lo if not S.is_z3(lo) else None
+        if lo_v is not None and S.is_z3(hi):
+            for size in range(1, 5):
+                if ctx.known(S.eq(hi, lo_v + size)):
+                    for k in range(lo_v, lo_v + size):
+                        rest = S.add(rest, S.mul(body(k), c))
+                    break
+            else:
+                terms.append([c, lo, hi, body])
+            continue
         terms.append([c, lo, hi, body])
+    if isinstance(rest, S.SumT):
+        return sum_zero(ctx, name, S.SumT(terms + rest.terms, rest.rest) if terms else rest, kind, depth + 1)
     groups = []
     for t in terms:
         placed = False
